@@ -137,7 +137,8 @@ def check_identity(case, ctx):
     fresh.run(cfg, dry_run=True, beacon_id=other, user="u", computer="c", process="p")
     d2 = hashlib.sha256(a.aes_rand).digest()
     if a.beacon_id != other or (a.aes_rand, a.aes_key, a.hmac_key) != (fresh.aes_rand, fresh.aes_key, fresh.hmac_key) or (a.aes_key, a.hmac_key) != (d2[:16], d2[16:]) \
-            or a.aes_rand == b.aes_rand or bytes(a.metadata.aes_rand) != a.aes_rand or a.metadata.bid != other:
+            or a.aes_rand == b.aes_rand or bytes(a.metadata.aes_rand) != a.aes_rand or a.metadata.bid != other \
+            or tuple(a.c2http.beacon_keys)[:2] != (d2[:16], d2[16:]) or tuple(fresh.c2http.beacon_keys)[:2] != (d2[:16], d2[16:]):
         ctx.violation("identity.keys", f"client object re-run for id {other} keeps state of id {b.beacon_id} (keys/metadata do not match a fresh client for {other})", case)
         return
     nt = case["user"] is not None or (rid is not None and (rid % 2 or rid < 0 or rid >= 2**31))
@@ -224,8 +225,14 @@ def check_dispatch(case, ctx):
                 arg = BeaconCommand(cmd)
             else:
                 arg = TaskPacket().command.__class__(cmd)
-            c.handle(arg)(mk(label, beh))
+            ret = c.handle(arg)(mk(label, beh))
             registered[cmd].append(label)
+            if n % 4 == 1 and cmd is not None:
+                # stacked decorators: what the decorator returns is registered for a second command
+                in_hist = [x for x in case["history"] if x is not None and x != cmd and x in COMMANDS]
+                cmd2 = in_hist[(case["seed"] + n) % len(in_hist)] if in_hist else [x for x in COMMANDS if x != cmd][(case["seed"] + n) % (len(COMMANDS) - 2)]
+                c.handle(cmd2)(ret)
+                registered[cmd2].append(label)
         elif how == "register":
             # register_task is public too: same three spellings of the command
             if cmd is None or cmd == -1 or n % 3 == 0 or cmd in UNKNOWN_COMMANDS:
